@@ -147,6 +147,16 @@ func Check(events []Event, porcTimeout time.Duration) ([]Finding, Stats) {
 			}
 		}
 		res, info := porcupine.CheckOperationsVerbose(registerModel, ops, porcTimeout)
+		if res == porcupine.Unknown {
+			// the search ran out of time (a loaded machine, an unlucky partition): once more with four times the budget. A
+			// partition that still has no answer is left to monitors 1-3, which have judged it above - counted as skipped,
+			// like a partition over the size limit; it is not a verdict of the linearizability checker either way
+			res, info = porcupine.CheckOperationsVerbose(registerModel, ops, 4*porcTimeout)
+			if res == porcupine.Unknown {
+				st.PorcupineSkipped++
+				continue
+			}
+		}
 		switch res {
 		case porcupine.Ok:
 			st.PorcupineOK++
